@@ -119,4 +119,16 @@ META = {
         "note": 'trusted: as C17; c18_announce over whole runs assumes queue ids come from the counter (never reused; C11)',
         "technique": 'Lean 4 proof (inductive invariants over all event sequences) + differential correspondence check',
     },
+    "C04": {
+        "text": 'Lean 4 theorems over the allocator model M3 for all descriptors, requests and operation sequences: c04_inv (Conserve - per index free fraction + held fractions = one unit, sums never exceed the size - is an inductive invariant for every allowed choice), c04_exclusive, c04_exact (exactly the requested amount, whole indices first, at most one fractional index last), c04_release, c04_concise' + CORR,
+        "design_ref": 'DESIGN.md 7/C04',
+        "note": 'trusted: Lean kernel, hand-written model of worker/resources/*.rs tied by the correspondence (HiGHS group set and hash-order fraction picks are validated inputs); side condition NoSingletonGroups for c04_release/c04_concise (the normal constructor never builds such pools; the correspondence covers them); env-var rendering in program.rs is glue covered by the worker harness only',
+        "technique": 'Lean 4 proof (inductive invariant over operation sequences) + differential correspondence check',
+    },
+    "C16": {
+        "text": "Lean 4 theorems over M3: c16_admit_iff (non-strict request admitted iff the free state contains the amount), c16_single_fraction (full); c16_grant_agrees_partial, c16_claim_nostop_partial, c16_all_partial, c16_scatter_partial, c16_min_groups_partial, c16_strict_partial (explicit hypotheses on solver determinism / tie-break bounds / uncoupled descriptors); recorded finding F30 (strict policy refused by the solver's tie-break term)" + CORR,
+        "design_ref": 'DESIGN.md 7/C16',
+        "note": "trusted: as C04; the group set chosen by HiGHS is an input validated for feasibility and (brute force over group subsets, within HiGHS's MIP gap) optimality; policies on coupled descriptors are compared, not proved",
+        "technique": 'Lean 4 proof (admission/claim lemmas for all free states) + differential correspondence check with brute-force reference',
+    },
 }
